@@ -4,3 +4,9 @@ import Fir.Props.C18
 #print axioms Fir.C18.pass_monotone_u16
 #print axioms Fir.C18.range_from_uniform_u8
 #print axioms Fir.C18.madd_epi16_exact
+#print axioms Fir.C18.accOK8_of_abs_sum
+#print axioms Fir.C18.accOK16_of_abs_sum
+#print axioms Fir.C18.horizPass_monotone_u8
+#print axioms Fir.C18.vertPass_monotone_u8
+#print axioms Fir.C18.horizPass_monotone_u16
+#print axioms Fir.C18.vertPass_monotone_u16
